@@ -199,4 +199,28 @@ def o18_3(tier):
                 for c in range(len(ys)):
                     hit = [v for kk, v in got if ctx.it.truth(ctx.And(ctx.close(kk[0], xs[r]), ctx.close(kk[1], ys[c])))]
                     ctx.ensure(len(hit) == 1 and hit[0] == ("eig-of", g, r, c), f"call {g + 1}: centre ({r},{c}) carries the eigen-decomposition of its own tensor")
-    return [("two-calls-with-different-grids", h)]
+    def h_wide(ctx):
+        # a grid with a two-digit index (11 x 1 and 1 x 11, the largest size whose keys f"{row}{column}" are still unambiguous): every
+        # grid centre gets the eigen-system of the tensor stored under ITS row and column
+        if ctx.mode != "sym":
+            return
+        F = ctx.get(ctx.module("forsys.frames"), "Frame")
+        for nx, ny in ((11, 1), (1, 11)):
+            fr = ctx.alloc(F)
+            xs, ys = [ctx.real(f"g{nx}x{i}") for i in range(nx)], [ctx.real(f"g{nx}y{i}") for i in range(ny)]
+            for seq in (xs, ys):
+                for i in range(1, len(seq)):
+                    ctx.assume(seq[i] > seq[i - 1] + 1, "pre: distinct grid centres")
+
+            def field(it, a, k, xs=xs, ys=ys):
+                return (ctx.dict([(f"{r}{c}", ("tensor", r, c)) for r in range(len(xs)) for c in range(len(ys))]), (list(xs), list(ys)))
+            ctx.stub("forsys.stress_tensor:stress_tensor", field, "callee contract O18.1 / B18: only its shape matters here")
+            ctx.stub("numpy.linalg.eig", lambda it, a, k: ("eig-of",) + tuple(a[0][1:]), "A-eig")
+            ctx.callm(fr, "calculate_stress_tensor", 11, 1.0)
+            got = ctx.list_of(ctx.get(fr, "principal_stress"))
+            ctx.ensure(len(got) == nx * ny, f"{nx}x{ny}: one entry per grid centre")
+            for r in range(nx):
+                for c in range(ny):
+                    hit = [v for kk, v in got if ctx.it.truth(ctx.And(ctx.close(kk[0], xs[r]), ctx.close(kk[1], ys[c])))]
+                    ctx.ensure(len(hit) == 1 and hit[0] == ("eig-of", r, c), f"{nx}x{ny}: centre ({r},{c}) carries the eigen-decomposition of its own tensor")
+    return [("two-calls-with-different-grids", h), ("grid-index-of-two-digits", h_wide)]
